@@ -43,4 +43,18 @@ Splice == steps > 0 /\ \E t \in InsertSeeds, p \in 0..Len(text) : \E q \in 1..Le
 Duplicate == Len(text) < 2000 /\ Step("duplicate", text \o text)
 Next == steps < MaxSteps /\ (Truncate \/ Insert \/ Delete \/ Splice \/ Duplicate)
 Spec == Init /\ [][Next]_tvars
+
+\* Random walks (thorough tier, `tlc -simulate`): the same actions with their parameters drawn at random, so that a
+\* state has five successors instead of every cut / insertion point (TLC's simulator generates and checks all
+\* successors of a state before it picks one).  Every WalkNext step is a Next step.
+\* (a value drawn with RandomElement is bound by \E over a singleton: a LET definition would be drawn again at each use)
+RTruncate == Len(text) > 0 /\ \E k \in {RandomElement(0..(Len(text) - 1))} : Step("truncate", Cut(text, 1, k))
+RInsert == \E p \in {RandomElement(0..Len(text))} : \E tok \in {RandomElement(Tokens)} :
+             Step("insert", Cut(text, 1, p) \o tok \o Cut(text, p + 1, Len(text)))
+RDelete == Len(text) > 0 /\ \E p \in {RandomElement(1..Len(text))} : \E n \in {RandomElement({1, 2, 5})} :
+             Step("delete", Cut(text, 1, p - 1) \o Cut(text, p + n, Len(text)))
+RSplice == \E t \in {RandomElement(InsertSeeds)} : \E p \in {RandomElement(0..Len(text))} : \E q \in {RandomElement(1..Len(t))} :
+             Step("splice", Cut(text, 1, p) \o Cut(t, q, Len(t)))
+WalkNext == steps < MaxSteps /\ (RTruncate \/ RInsert \/ RDelete \/ RSplice \/ Duplicate)
+WalkSpec == Init /\ [][WalkNext]_tvars
 =============================================================================
